@@ -427,7 +427,7 @@ def c15(ctx):
     if not q:
         ctx.design("LeaseU", "MC_LeaseU.cfg")
     ctx.design("Lease", "MC_Lease_quick.cfg")
-    beh = ctx.generate("Lease", "MC_Lease_gen.cfg", num=1500 if q else 80000, depth=16)
+    beh = ctx.generate("Lease", "MC_Lease_gen.cfg", num=1500 if q else 40000, depth=16)
     if not ctx.gv("tlc-schedules", "Trace_Lease", ["lease"], inputs=beh):
         return
     # racing requests whose compare-and-set proposals reach the metadata state machine as ONE apply batch
